@@ -379,7 +379,9 @@ Check_C13(s, e, o, s2) ==
                    Tag("C13", "disconnect-notification", s.st \o "-" \o s2.cause))
           ELSE {})
     \cup TagsIf(s.dying /\ (o.outC # <<>> \/ o.outB # <<>>), Tag("C13", "output-after-termination", s.cause))
-    \cup TagsIf(e.t = "End" /\ o.leaked > 0, Tag("C13", "goroutines-leaked", s.cause))
+    \* leaked: goroutines of the code under test still alive at the first quiescent point after run() returned
+    \* (1000 + n at the End line: the session never ended)
+    \cup TagsIf(o.leaked > 0, Tag("C13", "goroutines-leaked", IF s2.cause # "" THEN s2.cause ELSE s.cause))
 
 -----------------------------------------------------------------------------
 (* C14 last will cancelled only by a plain client DISCONNECT                *)
